@@ -109,6 +109,20 @@ def run(chk):
             bad.append((fams[name](n) if n <= 300 else "family %s(%d) from tools/gen/families.py" % (name, n),
                         "family:%s:%d" % (name, n), out))
     chk.cov["hostile_sizes"] = deep
+    # ---- wide, shallow documents on a SMALL stack (256 KiB): the stack a document needs may grow with its depth (limited by
+    # the parser) but not with its width (round-7 seed C03-J: the compact printer recursed once per sibling)
+    wide = []
+    for name, n in [("siblings", 6000), ("attrs", 3000), ("refs", 4000), ("text", 200000), ("comment", 100000), ("cdata", 100000),
+                    ("attvalue", 50000), ("attlists", 2000), ("pi", 20000)]:
+        if name not in fams:
+            continue
+        out = lib.run_lines(h, [lib.req("pipelinek", "256", fams[name](n))], timeout=300, per_line_resume=True)[0]
+        wide.append((name, n, out))
+        chk.count("smallstack:%s:%d" % (name, n), nontrivial=True)
+        if out in BAD:
+            bad.append(("family %s(%d) from tools/gen/families.py" % (name, n), "smallstack:%s:%d" % (name, n),
+                        out + " on a 256 KiB stack (the same document is handled on the default stack: the stack needed grows with the width)"))
+    chk.cov["wide_documents_small_stack"] = wide
     # ---- growth: doubling the size must not multiply the time by much more than a polynomial factor
     growth = {}
     for name in ["cm-choice", "cm-seq", "cm-mixed", "entbomb", "nest", "attrs", "comment", "refs"]:
